@@ -1,4 +1,262 @@
-(* C02 - generated code compiles and renders exactly what the template denotes. *)
+(* C02 - generated code compiles and renders exactly what the template denotes.
+   Proof layer on a fragment of the language (model/IrFrag.v): whitespace, text, string expressions with errors,
+   elements incl. void ones, constant / boolean-constant / string-expression / boolean-expression / class-expression /
+   conditional attributes, raw elements, doctype, HTML and Go comments, raw Go code, if/else-if/else, switch, for, and
+   calls (without blocks) of other templates of the file on fuel.  Every theorem holds for ANY expression semantics
+   (the oracles are universally quantified) and for every tree of the fragment.  [exec_f (compile tbl)] is the meaning
+   of the statements the generator emits after RangeWriter's literal merging [coalesce]; [denote_f tbl] is what the
+   templates denote; results are (output bytes, evaluation trace, error position).
+   The harness (family "fragment") checks on every run that the printed statements are byte for byte the text of
+   generator.Generate and that the compiled code renders what exec/denote say.
+   [tc] = whether the trace records evaluations of class expressions: these are hoisted in front of the element by
+   writeAttributesCSS, so the full trace (tc = true) agrees only on trees without class expressions
+   (C02_eval_only_where_reached_partial, C02_eval_hoisting_refuted); with tc = false everything else is compared. *)
 From Coq.Strings Require Import Byte String.
-From Coq Require Import List Arith.
-From V Require Import lib.Bytes.
+From Coq Require Import List Arith NArith Bool.
+Import ListNotations.
+From V Require Import lib.Bytes model.Ast model.IrFrag proofs.IrFragProof.
+Local Open Scope nat_scope.
+
+(* the generated, literal-merged code of a file writes exactly what its templates denote: output bytes, error position (nothing runs after an error), and the evaluation trace of every expression other than hoisted class lists; any call depth *)
+Theorem C02_generated_code_correct :
+  forall (E : Type) (escape : bytes -> bytes) (eval_str : E -> expr -> option bytes) (eval_bool : E -> expr -> bool)
+    (eval_for : E -> expr -> list E) (eval_sw : E -> expr -> nat) (eval_class : E -> expr -> bytes) (callee : expr -> bytes) (call_env : E -> expr -> E)
+    (tbl : list (bytes * list nd)) (fuel : nat) (env : E) (l : list nd) (next : option nd),
+    exec_f E escape eval_str eval_bool eval_for eval_sw eval_class callee call_env false (compile escape tbl) fuel env
+      (coalesce (gens escape l next))
+    = denote_f E escape eval_str eval_bool eval_for eval_sw eval_class callee call_env false tbl fuel env l next.
+Proof. intros. apply generated_code_correct; exact (or_introl eq_refl). Qed.
+Print Assumptions C02_generated_code_correct.
+
+(* merging adjacent literals into one WriteString (RangeWriter) never changes what runs: no byte moves across an expression, a call or a control-flow boundary, under any expression semantics *)
+Theorem C02_coalesce_sound :
+  forall (E : Type) (escape : bytes -> bytes) (eval_str : E -> expr -> option bytes) (eval_bool : E -> expr -> bool)
+    (eval_for : E -> expr -> list E) (eval_sw : E -> expr -> nat) (eval_class : E -> expr -> bytes) (call : E -> expr -> res) (env : E) (tc : bool) (p : list stmt),
+    exec E escape eval_str eval_bool eval_for eval_sw eval_class tc call env (coalesce p) = exec E escape eval_str eval_bool eval_for eval_sw eval_class tc call env p.
+Proof. intros. apply coalesce_sound. Qed.
+Print Assumptions C02_coalesce_sound.
+
+(* static markup (text, whitespace, doctype, comments, elements and raw elements with constant attributes, nested) is written in source order with the trailing-space rule between neighbours, and nothing else *)
+Theorem C02_static_in_order :
+  forall (E : Type) (escape : bytes -> bytes) (eval_str : E -> expr -> option bytes) (eval_bool : E -> expr -> bool)
+    (eval_for : E -> expr -> list E) (eval_sw : E -> expr -> nat) (eval_class : E -> expr -> bytes) (callee : expr -> bytes) (call_env : E -> expr -> E)
+    (tbl : list (bytes * list nd)) (fuel : nat) (env : E) (l : list nd) (next : option nd) (s : bytes),
+    static_render escape l next = Some s ->
+    exec_f E escape eval_str eval_bool eval_for eval_sw eval_class callee call_env false (compile escape tbl) fuel env
+      (coalesce (gens escape l next)) = lit s.
+Proof. intros. apply static_in_order; [exact (or_introl eq_refl)|assumption]. Qed.
+Print Assumptions C02_static_in_order.
+
+(* a node list renders as its parts in source order (and, by the error rule of andthen, nothing of b runs when a failed) *)
+Theorem C02_nodes_in_order :
+  forall (E : Type) (escape : bytes -> bytes) (eval_str : E -> expr -> option bytes) (eval_bool : E -> expr -> bool)
+    (eval_for : E -> expr -> list E) (eval_sw : E -> expr -> nat) (eval_class : E -> expr -> bytes) (callee : expr -> bytes) (call_env : E -> expr -> E)
+    (tbl : list (bytes * list nd)) (fuel : nat) (env : E) (a b : list nd) (next : option nd),
+    exec_f E escape eval_str eval_bool eval_for eval_sw eval_class callee call_env false (compile escape tbl) fuel env
+      (coalesce (gens escape (a ++ b) next))
+    = andthen (denote_f E escape eval_str eval_bool eval_for eval_sw eval_class callee call_env false tbl fuel env a (next_of b next))
+              (denote_f E escape eval_str eval_bool eval_for eval_sw eval_class callee call_env false tbl fuel env b next).
+Proof. intros. apply nodes_in_order; exact (or_introl eq_refl). Qed.
+Print Assumptions C02_nodes_in_order.
+
+(* a void element is written as its open tag only: no children, no closing tag *)
+Theorem C02_void_unclosed :
+  forall (E : Type) (escape : bytes -> bytes) (eval_str : E -> expr -> option bytes) (eval_bool : E -> expr -> bool)
+    (eval_for : E -> expr -> list E) (eval_sw : E -> expr -> nat) (eval_class : E -> expr -> bytes) (callee : expr -> bytes) (call_env : E -> expr -> E)
+    (tbl : list (bytes * list nd)) (fuel : nat) (env : E) (name : bytes) (b : bool) (attrs : list fattr) (t : trailing) (next : option nd),
+    exec_f E escape eval_str eval_bool eval_for eval_sw eval_class callee call_env false (compile escape tbl) fuel env
+      (coalesce (gens escape [Elem name b true attrs [] t] next))
+    = andthen (lit (open_tag escape name))
+        (andthen (dattrs E escape eval_str eval_bool eval_class false env attrs) (lit ([x3e] ++ trailer (Elem name b true attrs [] t) next))).
+Proof. intros. apply void_unclosed; exact (or_introl eq_refl). Qed.
+Print Assumptions C02_void_unclosed.
+
+(* a Go comment contributes nothing: the list renders as what precedes it followed by what follows it (it only counts as a non-inline neighbour for the trailing-space rule) *)
+Theorem C02_go_comments_omitted :
+  forall (E : Type) (escape : bytes -> bytes) (eval_str : E -> expr -> option bytes) (eval_bool : E -> expr -> bool)
+    (eval_for : E -> expr -> list E) (eval_sw : E -> expr -> nat) (eval_class : E -> expr -> bytes) (callee : expr -> bytes) (call_env : E -> expr -> E)
+    (tbl : list (bytes * list nd)) (fuel : nat) (env : E) (a b : list nd) (next : option nd),
+    exec_f E escape eval_str eval_bool eval_for eval_sw eval_class callee call_env false (compile escape tbl) fuel env
+      (coalesce (gens escape (a ++ GoComment :: b) next))
+    = andthen (denote_f E escape eval_str eval_bool eval_for eval_sw eval_class callee call_env false tbl fuel env a (Some GoComment))
+              (denote_f E escape eval_str eval_bool eval_for eval_sw eval_class callee call_env false tbl fuel env b next).
+Proof. intros. apply go_comments_omitted; exact (or_introl eq_refl). Qed.
+Print Assumptions C02_go_comments_omitted.
+
+(* the attributes under a conditional attribute are present exactly when its condition holds (else-branch otherwise); the condition is evaluated once *)
+Theorem C02_cond_attrs_iff :
+  forall (E : Type) (escape : bytes -> bytes) (eval_str : E -> expr -> option bytes) (eval_bool : E -> expr -> bool)
+    (eval_for : E -> expr -> list E) (eval_sw : E -> expr -> nat) (eval_class : E -> expr -> bytes) (call : E -> expr -> res) (env : E) (elem : bytes) (c : expr) (th el : list fattr),
+    exec E escape eval_str eval_bool eval_for eval_sw eval_class false call env (coalesce (gattrs escape elem [FCond c th el]))
+    = andthen (evt KBool c) (dattrs E escape eval_str eval_bool eval_class false env (if eval_bool env c then th else el)).
+Proof. intros. apply cond_attrs_iff; exact (or_introl eq_refl). Qed.
+Print Assumptions C02_cond_attrs_iff.
+
+(* a boolean-expression attribute is present exactly when its expression is true *)
+Theorem C02_bool_attr_iff :
+  forall (E : Type) (escape : bytes -> bytes) (eval_str : E -> expr -> option bytes) (eval_bool : E -> expr -> bool)
+    (eval_for : E -> expr -> list E) (eval_sw : E -> expr -> nat) (eval_class : E -> expr -> bytes) (call : E -> expr -> res) (env : E) (elem n : bytes) (e : expr),
+    exec E escape eval_str eval_bool eval_for eval_sw eval_class false call env (coalesce (gattrs escape elem [FBoolExpr n e]))
+    = andthen (evt KBool e) (if eval_bool env e then lit ([x20] ++ escape n) else unit_r).
+Proof. intros. apply bool_attr_iff. Qed.
+Print Assumptions C02_bool_attr_iff.
+
+(* a string-expression attribute writes name="escaped value", evaluating the expression once *)
+Theorem C02_attr_value_escaped :
+  forall (E : Type) (escape : bytes -> bytes) (eval_str : E -> expr -> option bytes) (eval_bool : E -> expr -> bool)
+    (eval_for : E -> expr -> list E) (eval_sw : E -> expr -> nat) (eval_class : E -> expr -> bytes) (call : E -> expr -> res) (env : E) (elem n : bytes) (e : expr) (s : bytes),
+    eval_str env e = Some s ->
+    exec E escape eval_str eval_bool eval_for eval_sw eval_class false call env (coalesce (gattrs escape elem [FExpr n e]))
+    = ([x20] ++ escape n ++ [x3d; x22] ++ escape s ++ [x22], [(KStr, e)], None).
+Proof. intros. apply attr_value_escaped; assumption. Qed.
+Print Assumptions C02_attr_value_escaped.
+
+(* adjacent siblings of which the first has TrailingSpace none: no byte between their renderings *)
+Theorem C02_ws_not_invented :
+  forall (E : Type) (escape : bytes -> bytes) (eval_str : E -> expr -> option bytes) (eval_bool : E -> expr -> bool)
+    (eval_for : E -> expr -> list E) (eval_sw : E -> expr -> nat) (eval_class : E -> expr -> bytes) (callee : expr -> bytes) (call_env : E -> expr -> E)
+    (tbl : list (bytes * list nd)) (fuel : nat) (env : E) (a b : nd) (next : option nd),
+    trail_of a = Some SpNone ->
+    exec_f E escape eval_str eval_bool eval_for eval_sw eval_class callee call_env false (compile escape tbl) fuel env
+      (coalesce (gens escape [a; b] next))
+    = andthen (denote_f E escape eval_str eval_bool eval_for eval_sw eval_class callee call_env false tbl fuel env [a] None)
+              (denote_f E escape eval_str eval_bool eval_for eval_sw eval_class callee call_env false tbl fuel env [b] next).
+Proof. intros. apply ws_not_invented; try exact (or_introl eq_refl); assumption. Qed.
+Print Assumptions C02_ws_not_invented.
+
+(* adjacent inline-or-text siblings with a non-empty trailing space are separated by exactly one space *)
+Theorem C02_ws_not_lost :
+  forall (E : Type) (escape : bytes -> bytes) (eval_str : E -> expr -> option bytes) (eval_bool : E -> expr -> bool)
+    (eval_for : E -> expr -> list E) (eval_sw : E -> expr -> nat) (eval_class : E -> expr -> bytes) (callee : expr -> bytes) (call_env : E -> expr -> E)
+    (tbl : list (bytes * list nd)) (fuel : nat) (env : E) (a b : nd) (next : option nd) (t : trailing),
+    trail_of a = Some t -> t <> SpNone -> inline (Some a) = true -> inline (Some b) = true ->
+    exec_f E escape eval_str eval_bool eval_for eval_sw eval_class callee call_env false (compile escape tbl) fuel env
+      (coalesce (gens escape [a; b] next))
+    = andthen (denote_f E escape eval_str eval_bool eval_for eval_sw eval_class callee call_env false tbl fuel env [a] None)
+        (andthen (lit [x20]) (denote_f E escape eval_str eval_bool eval_for eval_sw eval_class callee call_env false tbl fuel env [b] next)).
+Proof. intros. eapply ws_not_lost; try exact (or_introl eq_refl); eassumption. Qed.
+Print Assumptions C02_ws_not_lost.
+
+(* ... and no space is written when one of the two neighbours is not inline content (block element, comment, call, ...), whatever the source spacing *)
+Theorem C02_ws_block_no_space :
+  forall (E : Type) (escape : bytes -> bytes) (eval_str : E -> expr -> option bytes) (eval_bool : E -> expr -> bool)
+    (eval_for : E -> expr -> list E) (eval_sw : E -> expr -> nat) (eval_class : E -> expr -> bytes) (callee : expr -> bytes) (call_env : E -> expr -> E)
+    (tbl : list (bytes * list nd)) (fuel : nat) (env : E) (a b : nd) (next : option nd),
+    inline (Some a) && inline (Some b) = false -> (exists t, trail_of a = Some t) ->
+    exec_f E escape eval_str eval_bool eval_for eval_sw eval_class callee call_env false (compile escape tbl) fuel env
+      (coalesce (gens escape [a; b] next))
+    = andthen (denote_f E escape eval_str eval_bool eval_for eval_sw eval_class callee call_env false tbl fuel env [a] None)
+              (denote_f E escape eval_str eval_bool eval_for eval_sw eval_class callee call_env false tbl fuel env [b] next).
+Proof. intros. apply ws_block_no_space; try exact (or_introl eq_refl); assumption. Qed.
+Print Assumptions C02_ws_block_no_space.
+
+(* a string expression that returns an error stops the rendering with templ.Error{Line: to.line + 1, Col: to.col} and writes nothing *)
+Theorem C02_error_position :
+  forall (E : Type) (escape : bytes -> bytes) (eval_str : E -> expr -> option bytes) (eval_bool : E -> expr -> bool)
+    (eval_for : E -> expr -> list E) (eval_sw : E -> expr -> nat) (eval_class : E -> expr -> bytes) (callee : expr -> bytes) (call_env : E -> expr -> E)
+    (tbl : list (bytes * list nd)) (fuel : nat) (env : E) (e : expr) (t : trailing) (next : option nd),
+    eval_str env e = None ->
+    exec_f E escape eval_str eval_bool eval_for eval_sw eval_class callee call_env false (compile escape tbl) fuel env
+      (coalesce (gens escape [Str e t] next))
+    = ([], [(KStr, e)], Some (epos_of e)).
+Proof. intros. apply str_error; assumption. Qed.
+Print Assumptions C02_error_position.
+
+(* statements after an error do not run (the generated `if templ_7745c5c3_Err != nil { return ... }`) *)
+Theorem C02_error_stops :
+  forall (E : Type) (escape : bytes -> bytes) (eval_str : E -> expr -> option bytes) (eval_bool : E -> expr -> bool)
+    (eval_for : E -> expr -> list E) (eval_sw : E -> expr -> nat) (eval_class : E -> expr -> bytes) (call : E -> expr -> res) (env : E) (tc : bool) (p q : list stmt),
+    err_of (exec E escape eval_str eval_bool eval_for eval_sw eval_class tc call env p) <> None ->
+    exec E escape eval_str eval_bool eval_for eval_sw eval_class tc call env (p ++ q) = exec E escape eval_str eval_bool eval_for eval_sw eval_class tc call env p.
+Proof. intros. apply error_stops; assumption. Qed.
+Print Assumptions C02_error_stops.
+
+(* the evaluation trace of the generated code (class expressions recorded too) is the trace of the denotation - expressions on the taken path, once, in source order - for files without class-expression attributes.  Full statement (no guard) is false: C02_eval_hoisting_refuted.  Without the guard the same holds for every expression other than class lists: C02_generated_code_correct *)
+Theorem C02_eval_only_where_reached_partial :
+  forall (E : Type) (escape : bytes -> bytes) (eval_str : E -> expr -> option bytes) (eval_bool : E -> expr -> bool)
+    (eval_for : E -> expr -> list E) (eval_sw : E -> expr -> nat) (eval_class : E -> expr -> bytes) (callee : expr -> bytes) (call_env : E -> expr -> E)
+    (tbl : list (bytes * list nd)) (fuel : nat) (env : E) (l : list nd) (next : option nd),
+    tbl_hoist_free tbl = true -> forallb hoist_free l = true ->
+    trace_of (exec_f E escape eval_str eval_bool eval_for eval_sw eval_class callee call_env true (compile escape tbl) fuel env
+      (coalesce (gens escape l next)))
+    = trace_of (denote_f E escape eval_str eval_bool eval_for eval_sw eval_class callee call_env true tbl fuel env l next).
+Proof. intros. apply eval_only_where_reached; right; assumption. Qed.
+Print Assumptions C02_eval_only_where_reached_partial.
+
+(* an if whose condition is false evaluates the condition and nothing of its body, whatever the body contains *)
+Theorem C02_untaken_branch_silent :
+  forall (E : Type) (escape : bytes -> bytes) (eval_str : E -> expr -> option bytes) (eval_bool : E -> expr -> bool)
+    (eval_for : E -> expr -> list E) (eval_sw : E -> expr -> nat) (eval_class : E -> expr -> bytes) (callee : expr -> bytes) (call_env : E -> expr -> E)
+    (tbl : list (bytes * list nd)) (fuel : nat) (env : E) (tc : bool) (c : expr) (th : list nd) (next : option nd),
+    eval_bool env c = false ->
+    exec_f E escape eval_str eval_bool eval_for eval_sw eval_class callee call_env tc (compile escape tbl) fuel env
+      (coalesce (gens escape [If c th [] false []] next)) = evt KBool c.
+Proof. intros. apply untaken_branch_silent; assumption. Qed.
+Print Assumptions C02_untaken_branch_silent.
+
+(* ---------- the hoisting finding (DESIGN 5 C02 "Current tree", 6 row 13) at the model level ----------
+   <div if b { class={ c } }> with b false: the generated code evaluates c in front of the element
+   (writeAttributesCSS), the template does not reach it.  In Go, c = p.Class with p == nil panics. *)
+Definition x_e (s : string) : expr := {| e_val := bs s; e_fi := 0%N; e_fl := 0%N; e_fc := 0%N; e_ti := 0%N; e_tl := 2%N; e_tc := 7%N |}.
+Definition x_div_cond_class : list nd :=
+  [Elem (bs "div") true false [FCond (x_e "p != nil") [FClass (bs "class") (x_e "p.Class")] []] [] SpNone].
+Theorem C02_eval_hoisting_refuted :
+  exists (l : list nd),
+    trace_of (exec_f unit (fun s => s) (fun _ _ => Some []) (fun _ _ => false) (fun _ _ => []) (fun _ _ => 0) (fun _ _ => []) (fun e => e_val e) (fun u _ => u) true
+                (compile (fun s => s) []) 1 tt (coalesce (gens (fun s => s) l None)))
+    <> trace_of (denote_f unit (fun s => s) (fun _ _ => Some []) (fun _ _ => false) (fun _ _ => []) (fun _ _ => 0) (fun _ _ => []) (fun e => e_val e) (fun u _ => u) true
+                [] 1 tt l None).
+Proof. exists x_div_cond_class. vm_compute. discriminate. Qed.
+Print Assumptions C02_eval_hoisting_refuted.
+Example C02_ex_hoisted_trace :
+  trace_of (exec_f unit (fun s => s) (fun _ _ => Some []) (fun _ _ => false) (fun _ _ => []) (fun _ _ => 0) (fun _ _ => []) (fun e => e_val e) (fun u _ => u) true
+              (compile (fun s => s) []) 1 tt (coalesce (gens (fun s => s) x_div_cond_class None)))
+  = [(KClass, x_e "p.Class"); (KBool, x_e "p != nil")].
+Proof. vm_compute. reflexivity. Qed.
+Example C02_ex_denoted_trace :
+  trace_of (denote_f unit (fun s => s) (fun _ _ => Some []) (fun _ _ => false) (fun _ _ => []) (fun _ _ => 0) (fun _ _ => []) (fun e => e_val e) (fun u _ => u) true
+              [] 1 tt x_div_cond_class None)
+  = [(KBool, x_e "p != nil")].
+Proof. vm_compute. reflexivity. Qed.
+
+(* ---------- non-vacuity: a concrete file with text, a void element, if/else-if, for, switch, attributes, a call, an error ---------- *)
+Definition x_esc (s : bytes) : bytes := flat_map (fun b => if Byte.eqb b x3c then bs "&lt;" else [b]) s.
+(* environments: the stack of loop variables *)
+Definition x_str (env : list bytes) (e : expr) : option bytes :=
+  if bytes_eqb (e_val e) (bs "x") then Some (hd [] env) else if bytes_eqb (e_val e) (bs "boom()") then None else Some (e_val e).
+Definition x_bool (env : list bytes) (e : expr) : bool := bytes_eqb (e_val e) (bs "yes").
+Definition x_for (env : list bytes) (e : expr) : list (list bytes) := [bs "a" :: env; bs "<b>" :: env].
+Definition x_sw (env : list bytes) (e : expr) : nat := 1.
+Definition x_callee (e : expr) : bytes := firstn 4 (e_val e).
+Definition x_page : list nd :=
+  [Elem (bs "p") true false [FConst (bs "id") (bs "m<n"); FCond (x_e "yes") [FBoolConst (bs "hidden")] []; FBoolExpr (bs "checked") (x_e "no")]
+     [Text (bs "Hello") SpHoriz; Elem (bs "br") true true [] [] SpNone;
+      If (x_e "no") [Text (bs "never") SpNone] [(x_e "yes", [Str (x_e "name") SpHoriz; Text (bs "!") SpNone])] true [Text (bs "else") SpNone];
+      For (x_e "_, x := range xs") [Elem (bs "b") false false [FExpr (bs "title") (x_e "x")] [Str (x_e "x") SpNone] SpHoriz];
+      Switch (x_e "k") [(x_e "case 1:", [Text (bs "one") SpNone]); (x_e "default:", [Call (x_e "Foot(1)")])];
+      GoComment; Comment (bs " c ")] SpNone].
+Definition x_tbl : list (bytes * list nd) := [(bs "Foot", [Elem (bs "i") false false [] [Text (bs "foot") SpNone] SpNone])].
+Example C02_ex_renders :
+  exec_f (list bytes) x_esc x_str x_bool x_for x_sw (fun _ _ => []) x_callee (fun env _ => env) false (compile x_esc x_tbl) 3 []
+    (coalesce (gens x_esc x_page None))
+  = (bs "<p id=""m&lt;n"" hidden>Hello<br>name !<b title=""a"">a</b> <b title=""&lt;b>"">&lt;b></b> <i>foot</i><!-- c --></p>",
+     [(KBool, x_e "yes"); (KBool, x_e "no"); (KBool, x_e "no"); (KBool, x_e "yes"); (KStr, x_e "name"); (KFor, x_e "_, x := range xs");
+      (KStr, x_e "x"); (KStr, x_e "x"); (KStr, x_e "x"); (KStr, x_e "x"); (KSwitch, x_e "k"); (KCall, x_e "Foot(1)")], None).
+Proof. vm_compute. reflexivity. Qed.
+(* the literal merging really merges, and stops at control flow: the page body is 8 statements at the top level, 3 of them literals *)
+Example C02_ex_coalesced_shape :
+  map (fun s => match s with SLit _ => 0 | SIf _ _ _ _ _ => 1 | SFor _ _ => 2 | SSwitch _ _ => 3 | _ => 4 end) (coalesce (gens x_esc x_page None))
+  = [0; 1; 1; 0; 1; 2; 3; 0].
+Proof. vm_compute. reflexivity. Qed.
+Example C02_ex_static : static_render x_esc [Text (bs "a") SpHoriz; Elem (bs "br") true true [FBoolConst (bs "x")] [] SpNone; Text (bs "b") SpHoriz; Text (bs "c") SpNone] None
+  = Some (bs "a<br x>b c").
+Proof. vm_compute. reflexivity. Qed.
+Example C02_ex_ws_lost_hyps : exists a b t, trail_of a = Some t /\ t <> SpNone /\ inline (Some a) = true /\ inline (Some b) = true.
+Proof. exists (Text (bs "a") SpVert), (Str (x_e "s") SpNone), SpVert. repeat split; discriminate. Qed.
+Example C02_ex_error :
+  exec_f (list bytes) x_esc x_str x_bool x_for x_sw (fun _ _ => []) x_callee (fun env _ => env) false (compile x_esc x_tbl) 3 []
+    (coalesce (gens x_esc [Text (bs "before") SpHoriz; Str (x_e "boom()") SpHoriz; Text (bs "after") SpNone] None))
+  = (bs "before ", [(KStr, x_e "boom()")], Some (3%N, 7%N)).
+Proof. vm_compute. reflexivity. Qed.
+Example C02_ex_hoist_free : tbl_hoist_free x_tbl = true /\ forallb hoist_free x_page = true.
+Proof. split; reflexivity. Qed.
